@@ -281,7 +281,9 @@ def main():
     total = sum(len(by_group[g]) for g in order) or 1
     budget = {}
     for gname in order:
-        budget[gname] = max(1, min(len(by_group[gname]), int(round(a.jobs * len(by_group[gname]) / total))))
+        # every group may use all cores it has work for; CPU oversubscription is capped below (24 solver
+        # processes), the binding limit on this machine is memory (see the est_gb budget)
+        budget[gname] = max(1, min(len(by_group[gname]), a.jobs))
     # memory-bound machine: the job counts of all groups together must fit what is available now at
     # each group's measured per-process footprint (est_gb, default 3 GB); shrink the largest first
     try:
@@ -296,6 +298,9 @@ def main():
 
     while need() > max(8.0, avail_gb - 6) and any(budget[g] > 1 for g in order):
         g = max((g for g in order if budget[g] > 1), key=lambda g: budget[g] * float(plan["groups"][g].get("est_gb", 3)))
+        budget[g] -= 1
+    while sum(budget.values()) > int(a.jobs * 1.5) and any(budget[g] > 1 for g in order):
+        g = max((g for g in order if budget[g] > 1), key=lambda g: budget[g])
         budget[g] -= 1
     serial = need() > max(8.0, avail_gb - 6)   # even one job per group does not fit: run groups one by one
     lock = threading.Lock()
